@@ -37,7 +37,11 @@ func runC03(g Glue, j *Job, res *JobResult) {
 
 	// --- fault-free configuration ---
 	p, l := fresh()
-	base := e.runParse(p, l, j.In, nil, sess, nil)
+	var usage *Fault
+	if j.CtxSwap > 0 || j.MutateToks {
+		usage = &Fault{CtxSwapAt: j.CtxSwap, MutateToks: j.MutateToks}
+	}
+	base := e.runParse(p, l, j.In, usage, sess, nil)
 	res.Evals++
 	dg = digestAdd(dg, base.String())
 	switch {
@@ -76,7 +80,7 @@ func runC03(g Glue, j *Job, res *JobResult) {
 		}
 		for _, kind := range kinds {
 			p, l := fresh()
-			o := e.runParse(p, l, j.In, &Fault{ActionCall: k, Kind: kind}, sess, nil)
+			o := e.runParse(p, l, j.In, &Fault{ActionCall: k, Kind: kind, CtxSwapAt: j.CtxSwap, MutateToks: j.MutateToks}, sess, nil)
 			res.Evals++
 			res.Stats["fault-"+kind+"-fired"]++
 			dg = digestAdd(dg, o.String())
@@ -111,7 +115,7 @@ func runC03(g Glue, j *Job, res *JobResult) {
 	if j.Reuse {
 		// after all the aborted parses the same object must still evaluate the sentence correctly
 		p, l := fresh()
-		o := e.runParse(p, l, j.In, nil, sess, nil)
+		o := e.runParse(p, l, j.In, usage, sess, nil)
 		res.Evals++
 		res.Stats["reused-parser-final-parse"]++
 		switch {
